@@ -50,7 +50,8 @@ CLASSES = ["TimeAxis", "FrequencyAxis", "ValueAxis", "DFunction", "Operator", "S
            "DensityMatrix", "ReducedDensityMatrix", "TransitionDipoleMoment", "Molecule", "MoleculeModes",
            "Aggregate", "CorrelationFunction", "SpectralDensity", "SystemBathInteraction", "AbsSpectrum",
            "AbsSpectrumContainer", "TwoDResponse", "TwoDResponseContainer", "DensityMatrixEvolution", "RedfieldTensor",
-           "RedfieldOperators", "LindbladForm", "EvolutionSuperOperator"]
+           "RedfieldOperators", "LindbladForm", "EvolutionSuperOperator", "FluorSpectrum", "FluorSpectrumContainer",
+           "LinDichSpectrum", "LinDichSpectrumContainer", "CircDichSpectrum", "CircDichSpectrumContainer", "Mode"]
 CTX = ["none", "units", "basis", "both"]
 FORMATS = ["dat", "txt", "npy", "npz", "mat"]
 
@@ -293,6 +294,50 @@ def build(qr, cls, ints):
                         "lamb": numpy.array([x.get_reorganization_energy()]),
                         "interpolated": numpy.array([x.at(v, approx="spline") for v in xs])}
         return o, ex
+    if cls == "Mode":
+        with qr.energy_units("1/cm"):
+            md = qr.Mode(300.0 + ints[0])
+        mol = qr.Molecule([0.0, 1.5])
+        mol.add_Mode(md)
+        md.set_nmax(0, 2 + abs(ints[1]) % 3); md.set_nmax(1, 2 + abs(ints[2]) % 3); md.set_HR(1, 0.1 * (1 + abs(ints[3])))
+
+        def exm(x):
+            with qr.energy_units("int"):
+                return {"mode": numpy.array([x.get_energy(0), x.get_energy(1), x.get_shift(0), x.get_shift(1), x.get_nmax(0),
+                                             x.get_nmax(1)], dtype=float)}
+        return md, exm
+    if cls in ("FluorSpectrum", "FluorSpectrumContainer", "LinDichSpectrum", "LinDichSpectrumContainer", "CircDichSpectrum",
+               "CircDichSpectrumContainer"):
+        import importlib
+        base = cls.replace("Container", "")
+        mod = importlib.import_module("quantarhei.spectroscopy." + {"FluorSpectrum": "fluorescence",
+                                                                     "LinDichSpectrum": "linear_dichroism",
+                                                                     "CircDichSpectrum": "circular_dichroism"}[base])
+        Spect, Cont = getattr(mod, base), getattr(mod, base + "Container")
+        with qr.energy_units("1/cm"):
+            fa = qr.FrequencyAxis(10000.0 + 10 * ints[0], 40, 2.5)
+            vals = numpy.exp(-((numpy.arange(40) - 20.0 - ints[1]) / (5.0 + abs(ints[2]))) ** 2) * (1.0 if ints[3] >= 0 else -1.0)
+            a = Spect(axis=fa, data=vals)
+
+        def exs(x):
+            with qr.energy_units("int"):
+                return {"data": numpy.array(x.data), "axis": numpy.array(x.axis.data)}
+        if cls == base:
+            return a, exs
+        cont = Cont()
+        cont.set_axis(fa)
+        with qr.energy_units("1/cm"):
+            b = Spect(axis=fa, data=-0.5 * vals)
+        cont.set_spectrum(a, tag="first")
+        cont.set_spectrum(b, tag=1)
+
+        def exsc(x):
+            d = {}
+            for t in ("first", 1):
+                for k, v in exs(x.get_spectrum(t)).items():
+                    d["%s/%s" % (t, k)] = v
+            return d
+        return cont, exsc
     if cls in ("AbsSpectrum", "AbsSpectrumContainer"):
         with qr.energy_units("1/cm"):
             fa = qr.FrequencyAxis(10000.0 + 10 * ints[0], 50, 2.0)
